@@ -137,6 +137,116 @@ def _variant(rng, seg):
     return s
 
 
+# ------------------------------------------------------------------------------------------------
+# real PDE generators with auxiliary generators: the textbook loop on a real loss
+# ------------------------------------------------------------------------------------------------
+def _pde_cases(rng, tier):
+    out = []
+    for kind in ("statio", "nonstatio"):
+        for aux in ("param", "obs"):
+            for rep in range(1 if tier == "quick" else 3):
+                out.append({"kind": "pde", "gen": kind, "aux": aux, "n": rng.choice([2, 3]), "seed": rng.randrange(1 << 30),
+                            "ob": rng.choice([1, 2]), "tb": rng.choice([2, 3]), "a0": str(rng.choice([-2, -1, 1, 2])),
+                            "c": [str(rng.choice([-2, -1, 1, 2])) for _ in range(3)]})
+    return out
+
+
+def _run_pde(case):
+    """`jinns.solve` on a real LossPDEStatio / LossPDENonStatio with a CubicMesh generator and a parameter or
+    observation generator of the documented batch size, against the five-line textbook loop run by the harness on
+    the same objects (same generators passed in, same optimizer): loss history, final parameters, iterations."""
+    import jax
+    import jax.numpy as jnp
+    import numpy as np
+    import optax
+    import jinns
+    from fractions import Fraction
+    from harness import core
+    from harness.polynet import P, make_pinn
+    from jinns.data._DataGenerators import (CubicMeshPDEStatio, CubicMeshPDENonStatio, DataGeneratorParameter,
+                                            DataGeneratorObservations, append_param_batch, append_obs_batch)
+    from jinns.loss import PDEStatio, PDENonStatio, LossPDEStatio, LossPDENonStatio
+    from jinns.parameters import Params, DerivativeKeysPDEStatio, DerivativeKeysPDENonStatio
+
+    nonstatio = case["gen"] == "nonstatio"
+    nv = 2 if nonstatio else 1
+    c = [Fraction(x) for x in case["c"]]
+    poly = P(nv, {(0,) * nv: c[0], (1,) + (0,) * (nv - 1): c[1], (0,) * (nv - 1) + (2,): c[2]})
+    pinn = make_pinn([poly], "nonstatio_PDE" if nonstatio else "statio_PDE")
+    params = Params(nn_params=pinn.init_params(), eq_params={"a": jnp.array(float(Fraction(case["a0"])))})
+    key = jax.random.PRNGKey(case["seed"])
+    ob, tb, n = case["ob"], case["tb"], case["n"]
+    if nonstatio:
+        class Eq(PDENonStatio):
+            def equation(self, t, x, u, params):
+                return u(t, x, params) + params.eq_params["a"]
+        data = CubicMeshPDENonStatio(key=key, n=4, nb=None, nt=6, omega_batch_size=ob, omega_border_batch_size=None,
+                                     temporal_batch_size=tb, dim=1, min_pts=(0.0,), max_pts=(1.0,), tmin=0.0, tmax=1.0,
+                                     method="grid")
+        bsz = ob * tb
+        dk = DerivativeKeysPDENonStatio.from_str(params=params, dyn_loss="eq_params", observations="eq_params")
+        loss = LossPDENonStatio(u=pinn, dynamic_loss=Eq(), derivative_keys=dk, params=params)
+    else:
+        class Eq(PDEStatio):
+            def equation(self, x, u, params):
+                return u(x, params) + params.eq_params["a"]
+        data = CubicMeshPDEStatio(key=key, n=4, nb=None, omega_batch_size=ob, omega_border_batch_size=None, dim=1,
+                                  min_pts=(0.0,), max_pts=(1.0,), method="grid")
+        bsz = ob
+        dk = DerivativeKeysPDEStatio.from_str(params=params, dyn_loss="eq_params", observations="eq_params")
+        loss = LossPDEStatio(u=pinn, dynamic_loss=Eq(), derivative_keys=dk, params=params)
+    pdata = odata = None
+    if case["aux"] == "param":
+        pdata = DataGeneratorParameter(jax.random.PRNGKey(case["seed"] + 1), 2 * bsz, bsz,
+                                       user_data={"a": jnp.arange(1.0, 2 * bsz + 1.0)})
+    else:
+        nobs = 2 * bsz
+        odata = DataGeneratorObservations(jax.random.PRNGKey(case["seed"] + 2), bsz,
+                                          jnp.arange(0.0, nobs * nv).reshape(nobs, nv) / 4.0,
+                                          jnp.arange(1.0, nobs + 1.0).reshape(nobs, 1))
+    opt = optax.sgd(0.25)
+    # the textbook loop
+    p, st, d, pd, od = params, opt.init(params), data, pdata, odata
+    ref_hist = []
+    try:
+        for _ in range(n):
+            d, batch = d.get_batch()
+            if pd is not None:
+                pd, pb = pd.get_batch()
+                batch = append_param_batch(batch, pb)
+            if od is not None:
+                od, obb = od.get_batch()
+                batch = append_obs_batch(batch, obb)
+            (lv, _), g = jax.value_and_grad(loss.evaluate, has_aux=True)(p, batch)
+            upd, st = opt.update(g, st, p)
+            p = optax.apply_updates(p, upd)
+            ref_hist.append(core.qstr(lv))
+        ref = {"hist": ref_hist, "a": core.qstr(p.eq_params["a"])}
+    except Exception as e:
+        return {"pde": {"harness_reference_failed": core.err_kind(e), "msg": str(e)[:200]}}
+    try:
+        out = jinns.solve(n_iter=n, init_params=params, data=data, loss=loss, optimizer=opt, param_data=pdata,
+                          obs_data=odata, verbose=False)
+    except Exception as e:  # a rejection of a legal program is an observation
+        return {"pde": {"error": core.err_kind(e), "msg": str(e)[:200], "ref": ref}}
+    return {"pde": {"hist": [core.qstr(x) for x in np.asarray(out[1], dtype=float)],
+                    "a": core.qstr(out[0].eq_params["a"]), "ref": ref}}
+
+
+def _judge_pde(case, obs):
+    o = obs["pde"]
+    if "harness_reference_failed" in o:
+        return {"status": "disagree", "clause": "reference-loop-could-not-run:" + o["harness_reference_failed"]}
+    if "error" in o:
+        return {"status": "violation", "clause": "valid-program-rejected", "error": o["error"], "message": o.get("msg")}
+    if o["hist"] != o["ref"]["hist"]:
+        return {"status": "violation", "clause": "loss-history", "observed": o["hist"], "reference": o["ref"]["hist"]}
+    if o["a"] != o["ref"]["a"]:
+        return {"status": "violation", "clause": "final-parameters", "observed": o["a"], "reference": o["ref"]["a"]}
+    return {"status": "ok", "clause": None}
+
+
+
 def gen_cases(rng, tier):
     cases = []
     if tier == "quick":
@@ -192,10 +302,12 @@ def gen_cases(rng, tier):
     # the (slow, eager) Python-loop cases go first so that they overlap with the bulk of the work
     def _slow(c):
         return bool((c.get("seg") or c["segs"][0]).get("sharding"))
-    return [c for c in cases if _slow(c)] + [c for c in cases if not _slow(c)]
+    return [c for c in cases if _slow(c)] + [c for c in cases if not _slow(c)] + _pde_cases(rng, tier)
 
 
 def shrink_candidates(case):
+    if case["kind"] == "pde":
+        return
     if len(case["segs"]) > 1:
         for s in case["segs"]:
             yield {**case, "segs": [s]}
@@ -226,6 +338,8 @@ def shrink_candidates(case):
 
 # ------------------------------------------------------------------------------------------------
 def run_impl(case):
+    if case["kind"] == "pde":
+        return _run_pde(case)
     runs = []
     for seg in case["segs"]:
         data, pdata, odata = sp.build_generators(seg["gens"])
@@ -280,10 +394,14 @@ def _requests(case, obs):
 
 
 def lean_request(case, obs):
+    if case["kind"] == "pde":
+        return None
     return [r for _, r in _requests(case, obs)]
 
 
 def judge(case, obs, answers):
+    if case["kind"] == "pde":
+        return _judge_pde(case, obs)
     labels = [l for l, _ in _requests(case, obs)]
     skipped = 0
     for lab, a in zip(labels, answers):
@@ -303,6 +421,8 @@ def judge(case, obs, answers):
 
 
 def nontrivial(case, obs):
+    if case["kind"] == "pde":
+        return "hist" in obs["pde"] and len(set(obs["pde"]["hist"])) >= 2
     for seg, rec in zip(case["segs"], obs["runs"]):
         a = rec["A"]
         if "error" in a or seg["n"] < 2:
@@ -315,6 +435,8 @@ def nontrivial(case, obs):
 
 
 def tags(case, obs):
+    if case["kind"] == "pde":
+        return [f"real_loss+{case['gen']}_generator+{case['aux']}_generator"]
     seg = case["segs"][0]
     out = [f"kind={case['kind']}", f"opt={seg['opt']['kind']}",
            "python_loop(obs_batch_sharding)" if seg.get("sharding") else
@@ -347,6 +469,8 @@ def tags(case, obs):
 def widen(rng, bad_cases):
     out = []
     for c in bad_cases:
+        if c["kind"] == "pde":
+            continue
         for seg in c["segs"][:2]:
             for n in (1, 2, 3, 5):
                 out.append({"kind": "single", "segs": [{**seg, "n": n}]})
